@@ -8,7 +8,7 @@ from vlib.kernel import KernelBuild, located_rules
 from . import _common
 
 ID = "K01"
-SERVES = ["C01", "C10", "C13"]
+SERVES = ["C01", "C03", "C10", "C13"]
 TITLE = "ValueFlow::truncateIntValue == C integer conversion"
 
 CONTRACT = r'''
@@ -46,6 +46,28 @@ void h_K01_cover(void) {
 }
 '''
 
+HARNESS_CALLSITE = r'''
+bigint g_in_cs_value; size_t g_in_cs_sz; int g_in_cs_sign, g_in_cs_impossible;
+void h_callsite(void) {
+    struct VValue v; v.vtype = VV_INT; v.impossible = nondet_bool(); v.intvalue = nondet_bigint(); v.floatValue = 0.0;
+    size_t sz = nondet_size_t(); enum Sign s = (enum Sign)nondet_int();
+    /* sizes of integral destination types (ValueType::getSizeOf: 0 = unknown, else 1..8 bytes on the supported platforms) */
+    __CPROVER_assume(sz <= 8 && (s == Sign_UNKNOWN_SIGN || s == Sign_SIGNED || s == Sign_UNSIGNED));
+    bigint old = v.intvalue; g_in_cs_value = old; g_in_cs_sz = sz; g_in_cs_sign = s; g_in_cs_impossible = v.impossible;
+    truncateValues_block(&v, sz, s);
+    __CPROVER_assert(v.vtype == VV_INT && v.impossible == g_in_cs_impossible, "kind and impossibility of the value are kept");
+    if (v.impossible || sz == 0 || sz == 8) __CPROVER_assert(v.intvalue == old, "impossible values and full-width / unknown-size destinations keep the value");
+    else if (s == Sign_SIGNED) __CPROVER_assert(v.intvalue >= -(1LL << (8 * sz - 1)) && v.intvalue < (1LL << (8 * sz - 1)) && (((biguint)v.intvalue ^ (biguint)old) & ((1ULL << (8 * sz)) - 1)) == 0,
+                                                "a value stored in a signed destination of sz bytes is the C conversion of the assigned value (C11 6.3.1.3)");
+    else __CPROVER_assert((biguint)v.intvalue == ((biguint)old & ((1ULL << (8 * sz)) - 1)), "a value stored in an unsigned destination of sz bytes is the assigned value modulo 2^(8 sz)");
+}
+void h_callsite_cover(void) {
+    struct VValue v; v.vtype = VV_INT; v.impossible = 0; v.intvalue = -1; v.floatValue = 0.0;
+    truncateValues_block(&v, 4, Sign_UNSIGNED);
+    __CPROVER_assert(!(v.intvalue == 4294967295LL), "COVER: -1 stored in a 4-byte unsigned destination becomes 4294967295");
+}
+'''
+
 REPLAY_CPP = r'''
 #include "vf_common.h"
 #include "mathlib.h"
@@ -79,7 +101,42 @@ def build(ctx):
     kb.rules_fired = n
     sig, body = extract.body_of(text)
     extract.residue_scan(text, ID)
-    kb.ctext = _common.BASE + enums + sig + CONTRACT + body + "\n" + HARNESS
+    # K01c: the call site in truncateValues (lib/valueflow.cpp) - the per-value block of its loop, with the callee replaced by its contract
+    import re
+    f = extract.locate_function("lib/valueflow.cpp", r'^static std::list<ValueFlow::Value> truncateValues\s*\(')
+    mt = extract.mask(f.text)
+    hs = list(re.finditer(r'for\s*\(\s*ValueFlow::Value\s*&\s*value\s*:\s*values\s*\)\s*\{', mt))
+    if len(hs) != 1:
+        raise extract.ExtractError("truncateValues: loop over the values not found")
+    ob = hs[0].end() - 1
+    cb = extract.match_brace(f.text, ob, mt)
+    if not re.match(r'^\s*return values;\s*\}\s*$', extract.strip_comments(f.text[cb + 1:])):
+        raise extract.ExtractError("truncateValues: unexpected code after the loop over the values")
+    if not re.search(r'const size_t sz = dst->getSizeOf\(settings, ValueType::Accuracy::ExactOrZero, ValueType::SizeOf::Pointer\);', extract.strip_comments(f.text[:hs[0].start()])):
+        raise extract.ExtractError("truncateValues: `sz` is no longer the size of the destination type")
+    reg = extract.Located("lib/valueflow.cpp", f.text[ob + 1:cb], f.start + ob + 1, f.start + cb, extract.read("lib/valueflow.cpp"))
+    kb.add_located("truncateValues [per-value block]", reg, "region")
+    tc, k = located_rules(reg, _common.VT_RULES + [
+        (r'\bvalue\.isImpossible\(\)', 'v->impossible', 1, 1),
+        (r'\bvalue\.isFloatValue\(\)', '(v->vtype == VV_FLOAT)', 1, 1),
+        (r'\bvalue\.isIntValue\(\)', '(v->vtype == VV_INT)', 1, 1),
+        (r'\bvalue\.valueType\s*=\s*ValueFlow::Value::ValueType::INT\s*;', 'v->vtype = VV_INT;', 1, 1),
+        (r'\bvalue\.(intvalue|floatValue)\b', r'v->\1', 3),
+        (r'\bValueFlow::truncateIntValue\(', 'truncateIntValue(', 1, 1),
+        (r'\bdst->sign\b', 'dst_sign', 1, 1),
+        (r'\bcontinue\s*;', 'return;', 1, 1),
+    ], ID + ".truncateValues"); n += k
+    if re.search(r'\bvalue\.|ValueFlow|dst->|settings', extract.mask(tc)):
+        raise extract.ExtractError("K01c: per-value block not fully lowered: %r" % tc.strip()[:300])
+    kb.rules_fired = n
+    callsite = ("enum VVType { VV_INT, VV_FLOAT, VV_OTHER };\nstruct VValue { enum VVType vtype; _Bool impossible; bigint intvalue; double floatValue; };\n"
+                "void truncateValues_block(struct VValue *v, const size_t sz, enum Sign dst_sign)\n{\n%s\n}\n" % extract.strip_comments(tc))
+    extract.residue_scan(callsite, ID)
+    kb.ctext = _common.BASE + enums + sig + CONTRACT + body + "\n" + callsite + HARNESS + HARNESS_CALLSITE
+    kb.job("callsite.truncateValues", "h_callsite", replace=["truncateIntValue"],
+           note="per-value block of truncateValues with truncateIntValue replaced by its contract (its precondition value_size <= 8 is checked at the call)")
+    kb.job("callsite.cover", "h_callsite_cover", kind="cover", replace=["truncateIntValue"])
+    kb.assumptions += ["truncateValues: only the per-value block; `sz` is the destination type's size (pinned by text, getSizeOf not verified); the removal of impossible values before the loop is not verified; float values are not constrained"]
     kb.job("contract", "h_K01", enforce="truncateIntValue", replay="native")
     kb.job("cover", "h_K01_cover", kind="cover")
     kb.job("twin", "h_K01", kind="twin", enforce="truncateIntValue", defines=["TWIN"])
